@@ -259,7 +259,7 @@ func reportViolation(t *testing.T, job *Job, known *KnownFindings, spec RunSpec,
 	}
 	rf := ReplayFile{Property: v.Prop, Violation: mv, Spec: mspec, Tree: job.Tree, Events: mres.Events, ShrinkRuns: runs}
 	os.MkdirAll(job.ReplayDir, 0o755)
-	path := fmt.Sprintf("%s/%s-%s-%d.json", job.ReplayDir, v.Prop, spec.Family, spec.Seed)
+	path := fmt.Sprintf("%s/%s-%s-%d-%s.json", job.ReplayDir, v.Prop, spec.Family, spec.Seed, classTag(v))
 	js, _ := json.MarshalIndent(rf, "", " ")
 	os.WriteFile(path, js, 0o644)
 	// replay once more from the file's content
@@ -320,4 +320,13 @@ func reportRace(job *Job, spec RunSpec, r *RunResult, v Violation) ViolationRepo
 	js, _ := json.MarshalIndent(rf, "", " ")
 	os.WriteFile(path, js, 0o644)
 	return ViolationReport{Violation: v, ReplayFile: path, Seed: spec.Seed, Family: spec.Family, StepsFrom: len(mspec.Scenario.Steps), StepsTo: len(mspec.Scenario.Steps), Replayed: true}
+}
+
+// classTag distinguishes the replay files of different violations found by the same seed.
+func classTag(v Violation) string {
+	h := uint32(2166136261)
+	for _, c := range []byte(v.Class + "/" + v.Sig) {
+		h = (h ^ uint32(c)) * 16777619
+	}
+	return fmt.Sprintf("%s-%04x", v.Class, h&0xffff)
 }
